@@ -271,8 +271,86 @@ def run(chk):
     p_get_block(chk)
     p_enqueue_missing(chk)
     p_contributors(chk)
+    p_get_contributors(chk)
     chk.assumptions += [
         "api.api_request_limit >= 1 (configuration precondition; the property quantifies over 1..50)",
         "list items are abstracted to integer ids; set/list operations on them follow the library contracts",
         "NOT covered: convergence of the greenlet fan-out under all schedules, sapi continuation merging, image description pages, the HTTP layer",
     ]
+
+
+# ----------------------------------------------------------------------------- contributors as the wiki reports them
+SAPI = "mwlib/network/sapi.py"
+AUTHORS = "mwlib/core/authors.py"
+
+
+def p_get_contributors(chk):
+    """sapi.MwApi.get_contributors + its merge_data closure + authors.InspectAuthors.get_authors:
+    for a page the result lists exactly the non-bot contributor names the API reported and
+    counts the anonymous edits, over any split of the answer into continuation chunks
+    (modelled: two merge_data calls)."""
+    ex = Explorer()
+    fn = ex.function(SAPI, "MwApi.get_contributors")
+    ga = ex.function(AUTHORS, "InspectAuthors.get_authors")
+    ex.inline |= {AUTHORS + ":InspectAuthors.__init__", ga.ident}
+    is_bot = z3.Function("name_ends_with_bot", z3.StringSort(), z3.BoolSort())
+
+    class NameSet(PObj):
+        def __init__(self):
+            super().__init__("nameset", {"names": []})
+    ex.methods[("nameset", "add")] = Model("set.add (names)", lambda I, s, v: s.fields["names"].append(v))
+    ex.global_overrides[(AUTHORS, "set")] = None
+    ex.models["builtins.set"] = Model("set() for author names", lambda I, *a: NameSet() if not a else (_ for _ in ()).throw(Undecided("set(x)")))
+    ex.methods[("botrex", "search")] = Model("bot_rex.search", lambda I, r, name: SBool(is_bot(z3_of(name))) if kind_of(name) == "str" and not isinstance(name, str) else bool(__import__("re").search("bot$", name, 2)))
+    ex.global_overrides[(AUTHORS, "re")] = None
+
+    def class_attr_hook(I, obj, name):
+        if name == "bot_rex":
+            return PObj("botrex", {})
+        if name == "ANON":
+            return "ANONIPEDITS"
+        return NotImplemented
+    ex.getattr_hooks["InspectAuthors"] = class_attr_hook
+
+    def harness(I):
+        title = "Page A"
+        chunks = []
+        reported = []      # (name value, chunk index)
+        anon_total = 0
+        nchunks = 2 if I.decide(I.sym_bool("continued").z) else 1
+        for c in range(nchunks):
+            page = {"title": title, "pageid": 1}
+            if I.decide(I.sym_bool(f"chunk{c}_has_anon").z):
+                a = I.sym_int(f"anon{c}")
+                I.assume(a.z >= 1)
+                page["anoncontributors"] = a
+                anon_total = anon_total + a.z
+            if I.decide(I.sym_bool(f"chunk{c}_has_contributors").z):
+                nm = I.sym_str(f"name{c}")
+                page["contributors"] = [{"name": nm, "userid": 1}]
+                reported.append(nm)
+            chunks.append({"pages": {"1": page}})
+
+        def do_request(I2, api, action=None, merge_data=None, **kw):
+            for ch in chunks:
+                I2.call(merge_data, [None, ch], {})
+            return None
+        ex.methods[("mwapi", "do_request")] = Model("MwApi.do_request (calls merge_data per continuation chunk)", do_request)
+        api = PObj("mwapi", {"rvlimit": 500})
+        # bind the real method to the stub receiver
+        out = ex.run_function(I, fn, [api, [title]])
+        I.oblige("no_raise", out.returned, meta={"exc": out.exc.cls.name if out.exc else None})
+        res = out.value
+        I.oblige("result_has_the_requested_title", isinstance(res, dict) and title in res)
+        ia = res[title]
+        I.oblige("anonymous_edits_counted", I.eq_term(ia.fields["num_anon"], SInt(anon_total) if not isinstance(anon_total, int) else anon_total))
+        stored = ia.fields["authors"].fields["names"]
+        for nm in reported:
+            keep = z3.And(z3.Length(nm.z) > 0, z3.Not(is_bot(nm.z)))
+            if I.decide(keep):
+                I.oblige("reported_non_bot_contributor_is_listed", any(x is nm for x in stored))
+            else:
+                I.oblige("bots_and_empty_names_are_not_listed", not any(x is nm for x in stored))
+        I.oblige("nothing_else_is_listed", all(any(x is nm for nm in reported) for x in stored))
+
+    chk.prove("sapi.MwApi.get_contributors", harness, ex, targets=[fn, ga])
